@@ -12,6 +12,7 @@ import (
 	"go/constant"
 	"go/token"
 	"go/types"
+	"sort"
 	"strconv"
 	"strings"
 
@@ -740,6 +741,46 @@ func (e *evaluator) evalCall(call *ast.CallExpr) *Term {
 					}
 				}
 			}
+			// a pointer to a state struct that this function was itself given, handed on to a module function that
+			// updates the struct behind it: the struct the pointer stands for is updated
+			if id, ok := ast.Unparen(a).(*ast.Ident); ok && ci.fn != nil {
+				if v, ok := info.Uses[id].(*types.Var); ok {
+					if pt, isPtr := types.Unalias(v.Type()).(*types.Pointer); isPtr && namedStruct(pt.Elem()) != "" {
+						if os := e.p.outSummary(ci.fn, i); os != nil {
+							m := map[string]*Term{}
+							for j, aj := range ci.args {
+								m[fmt.Sprintf("P%d", j)] = stripAddr(aj)
+							}
+							cur := e.evalVar(v)
+							nv := os.Subst(m)
+							nv.Typ = cur.Typ
+							e.st.vars[v] = nv
+							was := writtenFields(cur)
+							now := writtenFields(nv)
+							var flds []string
+							for fld := range now {
+								flds = append(flds, fld)
+							}
+							sort.Strings(flds)
+							for _, fld := range flds {
+								val := now[fld]
+								if o, ok := was[fld]; ok && o.Eq(val) {
+									continue
+								}
+								e.st.emit(&Event{Kind: EvWrite, Node: call, Pos: call.Pos(), Var: v, Struct: namedStruct(pt.Elem()), Field: fld, Val: val, Base: cur})
+							}
+							continue
+						}
+						// what it leaves there differs from path to path: the value after the call (resolved per path
+						// when the callee is walked in place)
+						if ci.fn.isHandWritten() && ci.fn.Body != nil && !e.p.neverWritesParam(ci.fn, i) {
+							cur := e.evalVar(v)
+							e.st.vars[v] = mk("out", result, atom(strconv.Itoa(i))).withType(cur.Typ)
+							continue
+						}
+					}
+				}
+			}
 			if u, ok := ast.Unparen(a).(*ast.UnaryExpr); ok && u.Op == token.AND {
 				if id, ok := u.X.(*ast.Ident); ok {
 					if v, ok := info.Uses[id].(*types.Var); ok && !isCtxType(v.Type()) {
@@ -815,9 +856,15 @@ func (e *evaluator) callTerm(ci *callInfo) *Term {
 	if ci.recv != nil && !ci.recv.IsAt("K") && !ci.recv.IsAt("ctx") {
 		t.A = append(t.A, ci.recv)
 	}
-	for _, a := range ci.args {
+	for i, a := range ci.args {
 		if a.IsAt("ctx") || a.IsAt("K") {
 			continue
+		}
+		// a record handed to a module function by address only to be read: the call is a function of the record
+		if a.Op == "&" && len(a.A) == 1 && ci.fn != nil && ci.fn.isHandWritten() && ci.fn.Body != nil && i < len(ci.fn.Params) {
+			if pt, ok := types.Unalias(ci.fn.Params[i].Type()).(*types.Pointer); ok && namedStruct(pt.Elem()) != "" && e.p.neverWritesParam(ci.fn, i) {
+				a = a.A[0]
+			}
 		}
 		t.A = append(t.A, a)
 	}
